@@ -12,8 +12,10 @@ Oracle on the implementation (independent of the Lean model): forward-mode dual 
 import json
 import math
 import os
+import pickle
 import struct
 import sys
+import traceback
 from fractions import Fraction
 
 sys.path.insert(0, os.path.dirname(os.path.dirname(os.path.abspath(__file__))))
@@ -1595,6 +1597,83 @@ def shrink(wntr, hist, key, budget=60):
     return cur
 
 
+
+# ----------------------------------------------------------------------------- crash isolation
+# The real aml.Model (C++ evaluator compiled from the tree) is driven in a FORKED CHILD: an edit of evaluator.cpp that makes
+# `evaluate` / `evaluate_csr_jacobian` read out of bounds kills the child with a signal, not the check. The parent then finds the
+# first history that crashes (one child per history), shrinks it, and reports it as a concrete failing input ("evaluator-crash").
+
+
+def _in_child(fn):
+    """run fn() in a forked child -> ('ok', value) | ('signal', n) | ('infra', text) | ('brokentie', text) | ('exc', text)"""
+    sys.stdout.flush()
+    sys.stderr.flush()
+    r, w = os.pipe()
+    pid = os.fork()
+    if pid == 0:
+        os.close(r)
+        try:
+            try:
+                res = ("ok", fn())
+            except vlib.Infra as e:
+                res = ("infra", str(e))
+            except vlib.BrokenTie as e:
+                res = ("brokentie", str(e))
+            except BaseException:
+                res = ("exc", traceback.format_exc())
+            with os.fdopen(w, "wb") as f:
+                pickle.dump(res, f)
+            sys.stdout.flush()
+        finally:
+            os._exit(0)
+    os.close(w)
+    with os.fdopen(r, "rb") as f:
+        data = f.read()
+    _, status = os.waitpid(pid, 0)
+    if os.WIFSIGNALED(status):
+        return ("signal", os.WTERMSIG(status))
+    if not data:
+        return ("signal", -1)
+    return pickle.loads(data)
+
+
+def _ctx_state(ctx):
+    return dict(hist=ctx.hist, evaluations=ctx.evaluations, distinct=ctx.distinct, samples=ctx.samples, cov=ctx.cov)
+
+
+def crashes(wntr, hist):
+    """signal number if driving the real model through `hist` kills the process, else None"""
+    def go():
+        run_history_real(wntr, hist)
+        return None
+    r = _in_child(go)
+    return r[1] if r[0] == "signal" else None
+
+
+def locate_crash(wntr, hists, tags, budget=80):
+    for h, tag in zip(hists, tags):
+        sig = crashes(wntr, h)
+        if sig is None:
+            continue
+        small = list(h)
+        # drop whole ops (never the init op), last first, while it still crashes
+        i = len(small) - 1
+        while i >= 1 and budget > 0:
+            cand = small[:i] + small[i + 1:]
+            budget -= 1
+            if crashes(wntr, cand) is not None:
+                small = cand
+            i -= 1
+        # what was being executed: run op by op in a child that reports progress through a pipe
+        return Failure(
+            "evaluator-crash",
+            "the compiled evaluator crashed the process (signal %s) while the real aml.Model was driven through a %d-op history "
+            "(add/remove/set_structure/evaluate): out-of-bounds access in evaluator.cpp" % (sig, len(small)),
+            {"history": small, "from": tag, "signal": sig, "crash": True},
+        )
+    return None
+
+
 class C15(Check):
     pid = "C15"
     level = "proof"
@@ -1688,7 +1767,85 @@ class C15(Check):
                 failures.append((raw, hists[ri], tags[ri]))
         return runs, failures, broken
 
+
+    # -- crash-isolated entry points (see "crash isolation" above)
+    def _histories(self, ctx_seed_rng, quick):
+        """the same corpus + seeded histories `_correspondence_inproc` generates (the parent's rng was not advanced)"""
+        hists, tags = [], []
+        for fn, item in vlib.corpus_items("C15"):
+            hists.append([totuple(op) for op in item["history"]])
+            tags.append("corpus/" + fn)
+        n = 150 if quick else 1200
+        for k in range(n):
+            hists.append(make_history(ctx_seed_rng, quick))
+            tags.append("seed/%d" % k)
+        return hists, tags
+
+    def _guard(self, ctx, fn, regen):
+        wntr = vlib.import_wntr()
+        rng_state = ctx.rng.getstate()
+
+        def go():
+            out = fn()
+            return out, _ctx_state(ctx)
+
+        r = _in_child(go)
+        if r[0] == "ok":
+            out, st = r[1]
+            ctx.hist, ctx.evaluations, ctx.distinct, ctx.samples = st["hist"], st["evaluations"], st["distinct"], st["samples"]
+            ctx.cov.update(st["cov"])
+            return out
+        if r[0] == "infra":
+            raise vlib.Infra(r[1])
+        if r[0] == "brokentie":
+            raise vlib.BrokenTie(r[1])
+        if r[0] == "exc":
+            raise vlib.Infra("C15 child raised:\n" + r[1])
+        # the child was killed by a signal: find the history that does it
+        ctx.rng.setstate(rng_state)
+        hists, tags = regen()
+        ctx.count("crash:signal-%s" % r[1])
+        f = locate_crash(wntr, hists, tags)
+        if f is None:
+            raise vlib.Infra("the check's child process died with signal %s but no single history reproduces it" % r[1])
+        return f
+
     def correspondence(self, ctx):
+        out = self._guard(ctx, lambda: self._correspondence_inproc(ctx), lambda: self._histories(ctx.rng, ctx.quick))
+        if isinstance(out, Failure):
+            return [out], []
+        return out
+
+    def search(self, ctx, broken):
+        def regen():
+            hs = [make_history(ctx.rng, False) for _ in range(400 if ctx.quick else 3000)]
+            return hs, ["search/%d" % k for k in range(len(hs))]
+        out = self._guard(ctx, lambda: self._search_inproc(ctx, broken), regen)
+        if isinstance(out, Failure):
+            return [out]
+        return out
+
+    def replay(self, ctx, path):
+        wntr = vlib.import_wntr()
+        r = json.load(open(path if os.path.isabs(path) else os.path.join(vlib.VERIF, path)))
+        rep = r.get("replay", {})
+        if rep.get("crash"):
+            hist = [totuple(op) for op in rep["history"]]
+            for op in hist:
+                print("  op", json.dumps(op, default=str)[:400])
+            sig = crashes(wntr, hist)
+            print("replay: %s" % ("REPRODUCED the evaluator kills the process with signal %s" % sig if sig is not None
+                                  else "not reproduced on the current tree"))
+            return 1 if sig is not None else 0
+        res = _in_child(lambda: self._replay_inproc(ctx, path))
+        if res[0] == "ok":
+            return res[1]
+        if res[0] == "signal":
+            print("replay: REPRODUCED differently: the process was killed by signal %s" % res[1])
+            return 1
+        raise vlib.Infra("replay failed: %s" % (res[1],))
+
+    def _correspondence_inproc(self, ctx):
         wntr = vlib.import_wntr()
         rng = ctx.rng
         hists, tags = [], []
@@ -1767,7 +1924,7 @@ class C15(Check):
                 break
         return []
 
-    def search(self, ctx, broken):
+    def _search_inproc(self, ctx, broken):
         """wider failing-input search on the real implementation only (oracle = dual numbers)"""
         wntr = vlib.import_wntr()
         found = {}
@@ -1782,7 +1939,7 @@ class C15(Check):
                     found[raw["key"]] = Failure(raw["key"], best["what"], {"history": small, "detail": best["detail"], "op_index": best["op_index"]})
         return list(found.values())
 
-    def replay(self, ctx, path):
+    def _replay_inproc(self, ctx, path):
         wntr = vlib.import_wntr()
         r = json.load(open(path if os.path.isabs(path) else os.path.join(vlib.VERIF, path)))
         rep = r.get("replay", {})
